@@ -5,10 +5,10 @@ from . import common
 SPEC_THEOREM = 'Props/C20: index arithmetic of every position-taking function stays inside i64/Z for all i32 arguments (Part A); recursion depth is unbounded in the input (Part B, refuted bound)'
 TRUSTED = ['Coq 8.16.1 kernel', 'extraction + OCaml driver', 'Rust harness (debug build: overflow checks on; one child process per deep case)']
 ASSUMPTIONS = ['the stack limit itself is outside the model: Part B is exhibited by child processes on this machine (default 8 MiB main-thread stack, debug build)']
-RULE = 'Part A: every position-taking function x i32 extremes and boundaries x array lengths 0..5, JSONPath indices/slices with last +- extremes. Part B: 12 entry points x arrays/objects x depths 10^2..10^5 (5*10^5 thorough), each in its own process; non-trivial = a case at an extreme argument or depth >= 1000'
+RULE = 'Part A: every position-taking function x i32 extremes and boundaries x array lengths 0..5, JSONPath indices/slices with last +- extremes. Part B: 13 entry points x arrays/objects x depths 10^2..10^5 (5*10^5 thorough), each in its own process; non-trivial = a case at an extreme argument or depth >= 1000'
 
 EXT = [0, 1, -1, 2, -2, 5, -5, 2147483647, -2147483647, -2147483648, 2147483646, 1073741824, -1073741824, 65536, -65536]
-ENTRY = ['parse', 'parse_drop', 'decode', 'encode', 'to_string', 'compare', 'get_by_path', 'comparable', 'contains', 'strip_nulls', 'to_serde_json', 'traverse']
+ENTRY = ['parse', 'parse_drop', 'decode', 'encode', 'to_string', 'to_pretty_string', 'compare', 'get_by_path', 'comparable', 'contains', 'strip_nulls', 'to_serde_json', 'traverse']
 
 
 def generate(ctx):
@@ -40,6 +40,9 @@ def generate(ctx):
     for sub in ENTRY:
         for kind in ('arr', 'obj'):
             ns = set(depths)
+            if sub == 'to_pretty_string':
+                # the indentation makes the output quadratic in the depth: moderate depths only, but from the first levels on
+                ns = set([8, 16, 17, 32, 33, 64, 65] + [d for d in depths if d <= 2000])
             k = known.get('deep-recursion-%s' % sub)
             if k and 'min_depth_by_kind' in k:
                 # the deepest document that is known to go through on the unchanged tree must still go through
